@@ -110,3 +110,30 @@ def ndlModel (magic version : Nat) (cfg : NdlCfg) (alpha β₁ β₂ lam : R) (W
 end
 
 end Pyndl
+
+namespace Pyndl
+
+section
+variable {R : Type} [Add R] [Sub R] [Mul R] [Zero R]
+
+/-- `dict_ndl(weights=DataArray)` (ndl.py:421-428): every cell of the labelled
+    matrix becomes a dict entry. -/
+def dictFromLW (w : LW R) : WDict String String R :=
+  w.outcomes.map (fun o => (o, w.cues.map (fun c => (c, w.get o c))))
+
+/-- `data_array(weights)` (ndl.py:488-538): outcomes = dict keys, cues = union of
+    the row keys (any order; here first occurrence), zeros filled in. -/
+def lwFromDict (W : WDict String String R) : LW R :=
+  let outs := dedupKeepFirst (W.map (·.1))
+  let cues := dedupKeepFirst (W.flatMap (fun r => r.2.map (·.1)))
+  ⟨outs, cues, (outs.flatMap (fun o => cues.map (fun c => wdAbs W o c))).toArray⟩
+
+/-- the extension step of `ndl.ndl` for given weights (ndl.py:173-198) -/
+def extendLW (w : LW R) (cuesNew outsNew : List String) : LW R :=
+  let cues := w.cues ++ cuesNew.filter (fun c => !w.cues.contains c)
+  let outs := w.outcomes ++ outsNew.filter (fun o => !w.outcomes.contains o)
+  ⟨outs, cues, extendVals w.vals w.outcomes.length w.cues.length outs.length cues.length⟩
+
+end
+
+end Pyndl
